@@ -1,5 +1,5 @@
 # replay of a bounded stand-in violation (C14): re-run native/c14_io.py
 import sys
-print('generate_code Fourier: the generated code does not run: TypeError: Fouriergate.__init__() takes 1 positional argument but 2 were given')
+print("xir MSgate: command 0 (MSgate): parameter 4 ('num', (1+0j)) loaded as ('str', 'True')")
 print('REPLAY-VIOLATION')
 sys.exit(1)
